@@ -139,13 +139,17 @@ def strategy(tier):
                   st.sampled_from(['\n', ''])).map(lambda p: ['print', p[0], p[1], p[2], p[3]]),
     )
     return st.fixed_dictionaries({'ops': st.lists(op, min_size=1, max_size=10),
-                                  'threaded': st.one_of(st.just([]), st.lists(st.integers(0, 9), max_size=4, unique=True).map(sorted))})
+                                  'threaded': st.one_of(st.just([]), st.lists(st.integers(0, 9), max_size=4, unique=True).map(sorted)),
+                                  'compact': st.sampled_from([None, None, True, False])})
 
 
-def run_entry(entry, value, explicit, end):
+def run_entry(entry, value, explicit, end, compact=None):
     """-> text produced by the entry point (including end where the entry point writes one)"""
     import prettyprinter as pp
     import colorful
+    if compact is not None:
+        # the stdlib-compatible `compact` argument is accepted by every entry point and changes nothing
+        explicit = dict(explicit, compact=compact)
     if entry == 'pformat':
         return pp.pformat(value, **explicit) + end
     if entry in ('pformat_positional', 'pprint_positional'):
@@ -283,7 +287,7 @@ def oracle(case):
                         return core.viol('pretty-repr-warned', 'repr() of an instance whose class has (inherits) a registered printer warned: %s' % str(_ws[0].message)[:200])
                     ref_cmp = ref
                 else:
-                    got = run_entry(entry, value, explicit, end)
+                    got = run_entry(entry, value, explicit, end, case.get('compact'))
                     ref_cmp = ref + end
             except Exception as e:
                 return core.viol('entry-point-raised', '%s(%r) raised %r' % (entry, explicit, e))
